@@ -36,6 +36,17 @@ type TransSpec struct {
 	InPlace    bool     // [ext:T07] byte-buffer code: slice parameters written in place are handed back, bytestring type parameters, package-level tables, range over a slice written in place (gen/trans_ext07.go)
 	Std        []string // [ext:T07] standard-library functions translated through their models in Lib/GoSemStd.v (gen/trans_ext07.go)
 	Identity   []string // [ext:T07] functions of the package translated as the identity on byte lists (unsafe string <-> []byte casts)
+	T15        T15Spec  // [ext:T15] (gen/trans_ext15.go) byte-sequence type parameters, real imports, error kinds, out-parameters
+	// [ext:T08] (gen/trans_ext08.go) -------------------------------------------------------------------------------
+	Stubs         map[string]string // import path -> declarations (Go source) of a foreign package, as far as the code uses it
+	ModuleImports bool              // packages of the translated module are type-checked from their source in the tree
+	Foreign       []ForeignSpec     // functions / methods of other packages: fields of the generated `Record Foreign`
+	OutParams     map[string][]int  // function -> slice parameters that are output buffers (returned in front of the results)
+	ErrCodes      []ErrCode         // errors.New / fmt.Errorf texts -> error codes
+	// [func] (gen/trans_func.go) InOut (opt-in, see "In-out slice parameters" in TRANSLATOR.md): a slice parameter that a
+	// function only indexes, measures, ranges over or passes on in the same way, and whose elements it writes, is returned
+	// to the caller (after the receiver, before the results) and the caller rebinds the variable / field it passed.
+	InOut bool
 }
 
 type unsupported struct{ msg string }
@@ -51,6 +62,8 @@ const (
 	kStruct             // a translated struct (or a pointer to it) -> its Record
 	kPlace              // [seq] h := &s[i], s a slice of translated structs -> the index (trans_seq.go)
 	kErr                // [ext:T20] error -> Z: nil = 0, a sentinel `var ErrX = errors.New(..)` = a positive code
+	kOpaque             // [ext:T08] a value of a foreign type: `<type> ext'`, a field of the Record Foreign
+	kFunc               // [func] a function-typed parameter / field (trans_func.go) -> a Gallina function
 )
 
 type gtype struct {
@@ -62,6 +75,9 @@ type gtype struct {
 	str   bool        // [ext:T20] kSlice that is a Go string (immutable bytes)
 	arr   int64       // [ext:T20] kSlice that is a Go array [arr]T (isArr)
 	isArr bool
+	nest  bool     // [ext:T08] kSlice whose elements are slices of integers: list (list Z)
+	opq   string   // [ext:T08] kOpaque: the Record field that is its type
+	fn    *funcSig // [func] kFunc
 }
 
 func (g gtype) coq() string {
@@ -72,9 +88,16 @@ func (g gtype) coq() string {
 		if g.elem != nil { // [seq]
 			return "list " + g.elem.name
 		}
+		if g.nest { // [ext:T08]
+			return "list (list Z)"
+		}
 		return "list Z"
 	case kStruct:
 		return g.st.name
+	case kOpaque: // [ext:T08]
+		return "(" + g.opq + " ext')"
+	case kFunc:
+		return g.fn.coq()
 	}
 	return "Z"
 }
@@ -83,12 +106,17 @@ func (g gtype) zero() string {
 	case kBool:
 		return "false"
 	case kSlice:
+		if g.isArr && g.nest { // [ext:T08]
+			return fmt.Sprintf("(repeat [] %d)", g.arr)
+		}
 		if g.isArr { // [ext:T20]
 			return fmt.Sprintf("(repeat 0 %d)", g.arr)
 		}
 		return "[]"
 	case kStruct:
 		return "zero_" + g.st.name
+	case kFunc:
+		return "nil_func_is_not_modelled" // never emitted: declarations needing it are refused (trans_func.go)
 	}
 	return "0"
 }
@@ -112,12 +140,20 @@ type funcInfo struct {
 	writes  bool // pointer receiver whose fields are assigned (directly or through calls): the receiver is returned
 	loops   bool // contains a loop (directly or through calls): takes `fuel`
 	callees map[*funcInfo]bool
+	named   []*types.Var // [BitsCode] named results (all or none)
 	done    bool
 	// [ext:T20]
 	greads, gwrites map[*globalInfo]bool // package-level state read / written (directly or through calls)
 	ignoredRecv     bool                 // a receiver of an untranslatable type that the body never mentions
 	frag            *fragInfo            // a loop fragment of a function instead of a whole function
 	outs07          []int                // [ext:T07] indices of the slice parameters written in place: their new contents are returned
+	// [ext:T08]
+	foreign bool  // calls a foreign function (directly or through calls): takes `ext' : Foreign`
+	outs    []int // slice parameters that are output buffers
+	// [func] (trans_func.go)
+	noesc  []bool // per parameter: a slice the function neither keeps, reslices, returns nor reassigns
+	inout  []bool // per parameter: noesc and written in place (directly or through calls): returned to the caller
+	outs15 []int  // [ext:T15] indices of the slice parameters written in place (returned before the results)
 }
 
 type Translator struct {
@@ -132,6 +168,9 @@ type Translator struct {
 	seq     *seqState       // [seq] sequential reading of atomics, places, timed tails (trans_seq.go)
 	ext20                   // [ext:T20] state of gen/trans_ext20.go
 	ext07                   // [ext:T07] state of gen/trans_ext07.go
+	ext08                   // [ext:T08] state of gen/trans_ext08.go
+	inOut   bool            // [func] TransSpec.InOut
+	ext15                   // [ext:T15] state of gen/trans_ext15.go
 }
 
 type stubImporter struct{}
@@ -140,10 +179,16 @@ func (stubImporter) Import(path string) (*types.Package, error) {
 	if p := seqStubPackage(path); p != nil { // [seq] sync/atomic, runtime, time: typed stubs
 		return p, nil
 	}
+	if p := import08(path); p != nil { // [ext:T08] TransSpec.Stubs, packages of the translated module
+		return p, nil
+	}
 	if p := stubPackage07(path); p != nil { // [ext:T07] typez.StrOrBytes, strconv.AppendUint, unicode/utf8, unicode/utf16: typed stubs
 		return p, nil
 	}
 	p := types.NewPackage(path, filepath.Base(path))
+	if path == "math/bits" { // [BitsCode] the population counts of math/bits are typed, so that calls to them translate
+		declareOnesCount(p)
+	}
 	if path == "errors" { // [ext:T20] errors.New has a type, so that `var ErrX = errors.New("..")` and `err == ErrX` are typed
 		sig := types.NewSignatureType(nil, nil, nil, types.NewTuple(types.NewVar(token.NoPos, p, "text", types.Typ[types.String])),
 			types.NewTuple(types.NewVar(token.NoPos, p, "", types.Universe.Lookup("error").Type())), false)
@@ -177,6 +222,9 @@ func (t *Translator) typeOf(ty types.Type, n ast.Node) gtype {
 	if ty == nil {
 		t.fail(n, "expression without a type")
 	}
+	if g, ok := t.type08(ty, n); ok { // [ext:T08] opaque foreign types, [][]byte, byte-like type parameters
+		return g
+	}
 	switch x := ty.(type) {
 	case *types.Basic:
 		if g, ok := t.basic20(x); ok { // [ext:T20] string; intN when TransSpec.WrapSigned
@@ -207,6 +255,9 @@ func (t *Translator) typeOf(ty types.Type, n ast.Node) gtype {
 		if g, ok := t.typeParam07(x); ok { // [ext:T07] T constrained to ~string | ~[]byte: a byte list
 			return g
 		}
+		if g, ok := t.typeParam15(x); ok { // [ext:T15] T ~string | ~[]byte -> its byte-list instantiation
+			return g
+		}
 		return gtype{k: kElem}
 	case *types.Slice:
 		e := t.typeOf(x.Elem(), n)
@@ -221,6 +272,10 @@ func (t *Translator) typeOf(ty types.Type, n ast.Node) gtype {
 			if si := t.structs[nm.Origin().Obj()]; si != nil {
 				return gtype{k: kStruct, st: si, ptr: true}
 			}
+		}
+	case *types.Signature:
+		if fs := t.funcSigOf(x, n); fs != nil {
+			return gtype{k: kFunc, fn: fs}
 		}
 	case *types.Named:
 		if si := t.structs[x.Origin().Obj()]; si != nil {
@@ -251,7 +306,7 @@ var coqReserved = strings.Fields(`as at cofix else end exists exists2 fix for fo
  Type using where with Z nat list bool unit option true false tt fst snd inl inr negb andb orb xorb eqb repeat length app
  fuel bind Ret Panic NoFuel lift lift_fuel mmap zlen wrap m_rem m_quot m_shl m_shr m_get m_set m_slice m_make m_make_cap
  m_copy copy_all gocopy gorem goquot get_at set_at slice upd while ctl Next Break Return M Some None S O
- swrap str_of_byte`)
+ swrap str_of_byte ones_count`)
 
 func funcKey(fd *ast.FuncDecl) string {
 	n := fd.Name.Name
@@ -280,7 +335,7 @@ func Translate(repo string, spec TransSpec) (out string, err error) {
 		return "", e
 	}
 	t := &Translator{fset: p.Fset, repo: repo, structs: map[*types.TypeName]*structInfo{}, funcs: map[*types.Func]*funcInfo{},
-		byName: map[string]*ast.FuncDecl{}, global: map[string]bool{}}
+		byName: map[string]*ast.FuncDecl{}, global: map[string]bool{}, inOut: spec.InOut}
 	defer func() {
 		if r := recover(); r != nil {
 			if u, ok := r.(unsupported); ok {
@@ -292,7 +347,9 @@ func Translate(repo string, spec TransSpec) (out string, err error) {
 	}()
 	t.info = &types.Info{Types: map[ast.Expr]types.TypeAndValue{}, Defs: map[*ast.Ident]types.Object{},
 		Uses: map[*ast.Ident]types.Object{}, Selections: map[*ast.SelectorExpr]*types.Selection{}}
+	defer begin08(repo, spec)() // [ext:T08] import context (stubs of foreign packages)
 	conf := types.Config{Importer: stubImporter{}, Error: func(error) {}}
+	conf.Importer = t.importer15(spec, conf.Importer) // [ext:T15] real packages of the module, typed fmt.Errorf / encoding/hex stubs
 	tpkg, _ := conf.Check(spec.Dir, p.Fset, p.Files, t.info)
 	if tpkg == nil {
 		return "", fmt.Errorf("type checking %s failed", spec.Dir)
@@ -303,6 +360,8 @@ func Translate(repo string, spec TransSpec) (out string, err error) {
 	t.seqInit(spec, tpkg, p.Files) // [seq]
 	t.setup20(p, tpkg, spec)       // [ext:T20]
 	t.setup07(spec)                // [ext:T07]
+	t.setup08(spec)                // [ext:T08]
+	t.setup15(spec)                // [ext:T15]
 	for _, f := range p.Files {
 		for _, d := range f.Decls {
 			if fd, ok := d.(*ast.FuncDecl); ok && fd.Body != nil {
@@ -387,6 +446,9 @@ func Translate(repo string, spec TransSpec) (out string, err error) {
 	}
 	sb.WriteString(t.consts20())
 	sb.WriteString(t.consts07()) // [ext:T07] package-level tables
+	sb.WriteString(t.record08()) // [ext:T08] Record Foreign
+	sb.WriteString(t.consts15()) // [ext:T15] error kinds
+	t.shape15()                  // [ext:T15] the shape the area's proof scripts cover (else: degrade)
 	sb.WriteString(fb.String())
 	return sb.String(), nil
 }
@@ -412,12 +474,16 @@ func (si *structInfo) emit() string {
 		}
 		b.WriteString(".\n")
 	}
-	fmt.Fprintf(&b, "Definition zero_%s : %s := mk%s", si.name, si.name, si.name)
-	for _, ft := range si.ftypes {
-		b.WriteString(" " + ft.zero())
+	if si.hasFunc() { // a nil function value is not modelled: no zero value (declarations needing one are refused)
+		fmt.Fprintf(&b, "#[export] Hint Unfold")
+	} else {
+		fmt.Fprintf(&b, "Definition zero_%s : %s := mk%s", si.name, si.name, si.name)
+		for _, ft := range si.ftypes {
+			b.WriteString(" " + ft.zero())
+		}
+		b.WriteString(".\n")
+		fmt.Fprintf(&b, "#[export] Hint Unfold zero_%s", si.name)
 	}
-	b.WriteString(".\n")
-	fmt.Fprintf(&b, "#[export] Hint Unfold zero_%s", si.name)
 	for _, f := range si.fields {
 		fmt.Fprintf(&b, " set_%s_%s %s_%s", si.name, f, si.name, f)
 	}
@@ -460,15 +526,22 @@ func (t *Translator) addFunc(key string) *funcInfo {
 	}
 	for i := 0; i < sig.Results().Len(); i++ {
 		rv := sig.Results().At(i)
-		if rv.Name() != "" {
-			t.fail(fd, "named result %s of %s", rv.Name(), key)
+		if rv.Name() == "_" {
+			t.fail(fd, "blank named result of %s", key)
+		}
+		if rv.Name() != "" { // [BitsCode] named results: locals initialised to zero; a bare return yields their values
+			fi.named = append(fi.named, rv)
 		}
 		g := t.typeOf(rv.Type(), fd)
 		if g.k == kStruct && g.ptr {
 			t.fail(fd, "pointer result of %s", key)
 		}
+		if g.k == kFunc {
+			t.fail(fd, "function-typed result of %s", key)
+		}
 		fi.results = append(fi.results, g)
 	}
+	t.outs08(fi, key, sig) // [ext:T08] output parameters
 	return fi
 }
 
@@ -544,6 +617,7 @@ func (t *Translator) assigned(n ast.Node, set map[types.Object]bool) {
 	ast.Inspect(n, func(m ast.Node) bool {
 		t.seqAssigned(m, set) // [seq] writes through h := &s[i] and atomic stores
 		t.assigned07(m, set)  // [ext:T07] slice arguments written in place by the callee
+		t.assigned08(m, set)  // [ext:T08] slice arguments a foreign function writes
 		switch x := m.(type) {
 		case *ast.AssignStmt:
 			for _, l := range x.Lhs {
@@ -578,6 +652,11 @@ func (t *Translator) assigned(n ast.Node, set map[types.Object]bool) {
 					}
 				}
 			}
+			for _, a := range t.writtenArgs(x) { // [func] in-out slice arguments (trans_func.go)
+				if o, _ := t.rootObj(a); o != nil {
+					set[o] = true
+				}
+			}
 			if fn, _ := t.calleeOf(x); fn != nil { // [ext:T20] package-level state written by the callee
 				if fi := t.funcs[fn]; fi != nil {
 					for g := range fi.gwrites {
@@ -585,6 +664,7 @@ func (t *Translator) assigned(n ast.Node, set map[types.Object]bool) {
 					}
 				}
 			}
+			t.outAssigned15(x, func(o types.Object) { set[o] = true }) // [ext:T15] slices written through out-parameters
 		}
 		return true
 	})
@@ -623,11 +703,17 @@ func (t *Translator) analyse() {
 						fi.callees[t.funcFor(fn, c)] = true
 					}
 				}
+				if id, ok := m.(*ast.Ident); ok { // a package function used as a value (trans_func.go)
+					if fn := t.funcValueRef(id); fn != nil && !t.ident07[fn.Name()] { // [ext:T07] not: TransSpec.Identity
+						fi.callees[t.funcFor(fn, id)] = true
+					}
+				}
 				return true
 			})
 			fi.loops = hasLoop(t.body(fi))
 		}
 	}
+	t.analyseInOut()
 	for changed := true; changed; {
 		changed = false
 		for _, fi := range t.funcs {
@@ -647,6 +733,12 @@ func (t *Translator) analyse() {
 				changed = true
 			}
 			if t.outParams07(fi) { // [ext:T07]
+				changed = true
+			}
+			if t.outs15(fi) { // [ext:T15] slice parameters written in place
+				changed = true
+			}
+			if t.foreign08(fi) { // [ext:T08]
 				changed = true
 			}
 		}
@@ -732,4 +824,34 @@ func indentCoq(s string) string {
 		depth += strings.Count(l, "(") - strings.Count(l, ")")
 	}
 	return b.String()
+}
+
+// ---- [BitsCode] math/bits.OnesCount* ---------------------------------------------------------------------------------
+// The stub importer gives math/bits typed declarations of OnesCount, OnesCount8/16/32/64 (func(uintN) int); a call
+// translates to `ones_count N x` of Lib/GoSem.v (the number of set bits among positions 0..N-1: the function by its
+// specification; the standard library is not translated).
+var onesCountBits = map[string]int{"OnesCount": 64, "OnesCount8": 8, "OnesCount16": 16, "OnesCount32": 32, "OnesCount64": 64}
+var onesCountArg = map[string]types.BasicKind{"OnesCount": types.Uint, "OnesCount8": types.Uint8, "OnesCount16": types.Uint16,
+	"OnesCount32": types.Uint32, "OnesCount64": types.Uint64}
+
+func declareOnesCount(p *types.Package) {
+	for name, k := range onesCountArg {
+		sig := types.NewSignatureType(nil, nil, nil,
+			types.NewTuple(types.NewVar(token.NoPos, p, "x", types.Typ[k])),
+			types.NewTuple(types.NewVar(token.NoPos, p, "", types.Typ[types.Int])), false)
+		p.Scope().Insert(types.NewFunc(token.NoPos, p, name, sig))
+	}
+}
+
+// onesCountCall: is the call math/bits.OnesCountN(x)?  Returns N (0: no).
+func (t *Translator) onesCountCall(call *ast.CallExpr) int {
+	sel, ok := ast.Unparen(call.Fun).(*ast.SelectorExpr)
+	if !ok {
+		return 0
+	}
+	fn, ok := t.info.Uses[sel.Sel].(*types.Func)
+	if !ok || fn.Pkg() == nil || fn.Pkg().Path() != "math/bits" || len(call.Args) != 1 {
+		return 0
+	}
+	return onesCountBits[fn.Name()]
 }
